@@ -67,7 +67,9 @@ def safe_cell_text(rng, convert=True, long_p=0.0):
 
 
 def gen_column(rng, n, dtype=None, convert=True, nullable=None, long_p=0.0):
-    dtype = dtype or rng.choice(["str", "str", "str", "int", "float", "int", "float", "bool", "date", "int32", "float32"])
+    dtype = dtype or rng.choice(["str"] * 6 + ["int", "float"] * 3 + ["bool", "date", "int32", "float32", "datetime",
+                                                                     "time", "decimal", "floatx", "cat", "enum", "uint8",
+                                                                     "null"])
     nullable = rng.random() < 0.3 if nullable is None else nullable
     vals = []
     for _ in range(n):
@@ -81,12 +83,39 @@ def gen_column(rng, n, dtype=None, convert=True, nullable=None, long_p=0.0):
             vals.append(rng.random() < 0.5)
         elif dtype == "date":
             vals.append("%04d-%02d-%02d" % (rng.randint(1990, 2030), rng.randint(1, 12), rng.randint(1, 28)))
+        elif dtype == "null":
+            vals.append(None)
+        elif dtype in ("cat", "enum"):
+            vals.append(rng.choice(["lo", "mid", "hi", "n/a", "Grade 3"]))
+        elif dtype == "uint8":
+            vals.append(rng.choice([0, 1, 255, rng.randint(0, 255)]))
+        elif dtype == "datetime":
+            import datetime
+            vals.append(str(datetime.datetime(rng.randint(1990, 2030), rng.randint(1, 12), rng.randint(1, 28),
+                                              rng.randint(0, 23), rng.randint(0, 59), rng.randint(0, 59),
+                                              rng.choice([0, 0, 500000, 123456]))))
+        elif dtype == "time":
+            import datetime
+            vals.append(str(datetime.time(rng.randint(0, 23), rng.randint(0, 59), rng.randint(0, 59),
+                                          rng.choice([0, 0, 250000]))))
+        elif dtype == "decimal":
+            vals.append("%d.%02d" % (rng.randint(-9999, 9999), rng.randint(0, 99)))
+        elif dtype == "floatx":
+            vals.append(rng.choice(["nan", "inf", "-inf", "-0.0", "1.5", "1e-07", "1e+16"]))
         elif dtype == "float32":
             vals.append(rng.choice([0.0, 1.5, -2.25, 0.5, 1024.0, float(rng.randint(-5, 5))]))
         else:
             vals.append(rng.choice([0.0, 1.5, -2.25, round(rng.uniform(-1000, 1000), rng.randint(0, 6)),
                                     float(rng.randint(-5, 5)), 1e-7, 1.23e20]))
     return dtype, vals
+
+
+def retype_keys(rng, cols, names, p=0.3):
+    """grouping keys are not always plain strings: give some of the named string columns a categorical
+    or enum dtype (same values, same display text)"""
+    for c in cols:
+        if c["name"] in names and c["dtype"] == "str" and rng.random() < p:
+            c["dtype"] = rng.choice(["cat", "enum"])
 
 
 def split_runs(rng, n, maxruns):
@@ -165,6 +194,18 @@ def gen_df(rng, n, ncols, *, convert=True, group_cols=0, subline_cols=0, groupby
                 ren[k] = f"g{lvl}w{idx}"
         return ren[k]
 
+    def role_dtype(vs, allow_null=False):
+        # grouping keys are not always plain strings: categorical / enum columns, all-null columns
+        r = rng.random()
+        if allow_null and r < 0.04:
+            return "null", [None] * len(vs)
+        if r < 0.15:
+            return "cat", vs
+        if r < 0.30:
+            return "enum", vs
+        return "str", vs
+
+    conv_of = (lambda j: convert[j % len(convert)]) if isinstance(convert, list) else (lambda j: convert)
     cols = []
     for j in range(total):
         name = f"N{j}"
@@ -184,12 +225,13 @@ def gen_df(rng, n, ncols, *, convert=True, group_cols=0, subline_cols=0, groupby
                 # null is a group value of its own: one label of this level becomes null
                 target = rng.choice(sorted(set(vs)))
                 vs = [None if v == target else v for v in vs]
-            cols.append({"name": name, "dtype": "str", "values": vs})
+            dt, vs = role_dtype(vs, allow_null=True)
+            cols.append({"name": name, "dtype": dt, "values": vs})
         elif j == keypos:
             cols.append({"name": name, "dtype": "str",
                          "values": [f"d{row_base + r}c{j}" for r in range(n)]})
         else:
-            dt, vals = gen_column(rng, n, convert=convert, long_p=long_p)
+            dt, vals = gen_column(rng, n, convert=conv_of(j), long_p=long_p)
             cols.append({"name": name, "dtype": dt, "values": vals})
     # one whole page_by group may be the '-----' divider (rendered without a heading)
     if pg and n and rng.random() < divider_p:
@@ -204,6 +246,8 @@ def gen_df(rng, n, ncols, *, convert=True, group_cols=0, subline_cols=0, groupby
             target = rng.choice(cands)
             blank = rng.choice(["", " "])
             col["values"] = [blank if v == target else v for v in col["values"]]
+    for j in pg + sb:
+        cols[j]["dtype"], cols[j]["values"] = role_dtype(cols[j]["values"])
     meta = {"key": keypos, "page_by": [f"N{j}" for j in pg], "subline_by": [f"N{j}" for j in sb],
             "group_by": [f"N{j}" for j in gb], "row_base": row_base, "nrows": n}
     return {"cols": cols}, meta
@@ -301,7 +345,10 @@ def shaped(rng, name, nrow, ncol, shape=None, **kw):
     if shape == "scalar":
         return scalar_attr(rng, name, **kw)
     if shape == "row":
-        return [scalar_attr(rng, name, **kw) for _ in range(ncol)]
+        k = ncol
+        if ncol >= 3 and rng.random() < 0.25:
+            k = rng.randint(2, ncol - 1)     # a per-column pattern shorter than the table: recycled
+        return [scalar_attr(rng, name, **kw) for _ in range(k)]
     rows = max(1, nrow)
     if rows > 2 and rng.random() < 0.35:
         rows = rng.randint(2, rows - 1)      # fewer rows than the table: recycled (zebra patterns)
@@ -325,11 +372,14 @@ def gen_text_comp(rng, tag, *, lines=None, rich=0.3, half_points=False, color_po
         kw["text"] = kw["text"][0]
     for name in TEXT_ATTRS:
         if rng.random() < rich * 0.5:
-            if rng.random() < 0.5:
+            if rng.random() < (0.5 if n == 1 else 0.25):
                 kw[name] = scalar_attr(rng, name, half_points=half_points, color_pool=color_pool)
             else:
+                # one value per line
                 kw[name] = [scalar_attr(rng, name, half_points=half_points, color_pool=color_pool)
                             for _ in range(n)]
+    if n > 1 and rng.random() < rich * 0.5:
+        kw["text_justification"] = rng.sample(["l", "c", "r", "j"], min(n, 4))[:n] + ["l"] * max(0, n - 4)
     if convert is not None:
         kw["text_convert"] = convert
     return kw
@@ -423,7 +473,14 @@ def gen_table_spec(rng, *, nrows=(0, 30), ncols=(1, 6), strategy=None, header=No
         gb = rng.choice([1, 1, 2, 3]) if group_by is True else group_by
     need = pg + sb + gb + 1
     nc = max(nc, need + (1 if rng.random() < 0.7 else 0))
-    df, meta = gen_df(rng, n, nc, convert=convert, group_cols=pg, subline_cols=sb, groupby_cols=gb,
+    pattern = None
+    if not convert and nc >= 3 and rng.random() < 0.35:
+        # text_convert as a per-column pattern SHORTER than the table (recycled over the frame's columns)
+        k = rng.randint(2, nc - 1)
+        pattern = [rng.random() < 0.5 for _ in range(k)]
+        if all(pattern) or not any(pattern):
+            pattern[rng.randrange(k)] = not pattern[0]
+    df, meta = gen_df(rng, n, nc, convert=pattern if pattern else convert, group_cols=pg, subline_cols=sb, groupby_cols=gb,
                       row_base=row_base, maxruns=maxruns, long_p=long_p)
     nc = len(df["cols"])
     if pg:
@@ -445,7 +502,9 @@ def gen_table_spec(rng, *, nrows=(0, 30), ncols=(1, 6), strategy=None, header=No
         body["group_by"] = meta["group_by"]
     if rng.random() < 0.3:
         body["pageby_header"] = rng.random() < 0.5
-    if not convert:
+    if pattern:
+        body["text_convert"] = [pattern] if rng.random() < 0.5 else list(pattern)
+    elif not convert:
         body["text_convert"] = False
     if col_rel_width is None:
         col_rel_width = rng.random() < 0.4
@@ -479,7 +538,7 @@ def gen_table_spec(rng, *, nrows=(0, 30), ncols=(1, 6), strategy=None, header=No
     if opt(page_hf, 0.3):
         if rng.random() < 0.5:
             spec["page_header"] = {} if rng.random() < 0.5 else gen_text_comp(
-                rng, "PH", lines=1, rich=rich, half_points=half_points, color_pool=color_pool)
+                rng, "PH", lines=rng.choice([1, 1, 2, 3]), rich=rich, half_points=half_points, color_pool=color_pool)
         if rng.random() < 0.6:
             spec["page_footer"] = gen_text_comp(rng, "PF", rich=rich, half_points=half_points,
                                                 color_pool=color_pool)
